@@ -240,7 +240,7 @@ func Run(opts *Options) (int, error) {
 					if chunkList.trans(&item, runes) {
 						mutex.Lock()
 						if result, _, _ := pattern.MatchItem(&item, false, slab); result != nil {
-							opts.Printer(item.text.ToString())
+							opts.Printer(item.AsString(opts.Ansi))
 							found = true
 						}
 						mutex.Unlock()
